@@ -1,6 +1,10 @@
 package soy
 
-import "sync"
+import (
+	"strconv"
+	"strings"
+	"sync"
+)
 
 // H_compileRace (C09): two independent bundles are compiled (parse, registry, data-reference
 // check, globals, message ids) by two goroutines at once, under the happens-before check of every
@@ -16,6 +20,12 @@ func h_compileRace(a, b int, sc, rt bool) {
 		}
 		bd.AddGlobalsMap(c13Globals)
 		bd.AddGlobalsMap(c13Globals2)
+		// (globals given as text are evaluated while the bundle is put together)
+		gm, gerr := ParseGlobals(strings.NewReader("G_TXT_A = 1 + " + strconv.Itoa(t) + "\nG_TXT_B = 'x' + G_TXT_A\n"))
+		if gerr != nil {
+			return "globals: " + gerr.Error()
+		}
+		bd.AddGlobalsMap(gm)
 		reg, err := bd.Compile()
 		if err != nil {
 			return "reject: " + err.Error()
@@ -24,7 +34,7 @@ func h_compileRace(a, b int, sc, rt bool) {
 		for _, f := range reg.SoyFiles {
 			c13MsgIDs(f, &out)
 		}
-		return "accept: " + string(out)
+		return "accept: " + string(out) + " " + gm["G_TXT_B"].String()
 	}
 	alone := []string{compile(a), compile(b)}
 	if sc {
